@@ -82,8 +82,14 @@ def make_traj(tj, d="."):
     for k, st in enumerate(hist["steps"]):
         if st["op"] == "save":
             p = os.path.join(d, "hist%d%s" % (k, st["ext"]))
-            t.save(p)
-            shutil.rmtree(p) if os.path.isdir(p) else os.remove(p)
+            try:
+                t.save(p)
+            except Exception:  # noqa: BLE001  a refused earlier save is part of an ordinary history
+                pass
+            if os.path.isdir(p):
+                shutil.rmtree(p)
+            elif os.path.exists(p):
+                os.remove(p)
         elif st["op"] == "vectors":
             _ = t.unitcell_vectors
         elif st["op"] == "volumes":
@@ -242,6 +248,60 @@ def raw_dcd(path):
     return {"nset_header": nset, "natoms": natoms, "has_cell": int(has_cell), "frames": frames}
 
 
+def raw_dtr(path):
+    """DESRES trajectory directory: `timekeys` (magic DESK, frames_per_file, key record size, then per frame
+    time / offset / size as big-endian 32-bit halves) and frame files holding one self-describing blob per frame
+    (magic DESM; big-endian header, meta, typename, label blocks; scalar and field blocks in the writer's byte
+    order, every item padded to 8 bytes; items with count <= 1 live in the scalar block)."""
+    tk = open(os.path.join(path, "timekeys"), "rb").read()
+    magic, fpf, krs = struct.unpack(">III", tk[:12])
+    assert magic == 0x4445534B and krs == 24, "timekeys prologue"
+    frames = []
+    nrec = (len(tk) - 12) // krs
+    for i in range(nrec):
+        tlo, thi, olo, ohi, slo, shi = struct.unpack(">6I", tk[12 + krs * i:12 + krs * (i + 1)])
+        off, size = (ohi << 32) | olo, (shi << 32) | slo
+        fn = os.path.join(path, "frame%09d" % (i // fpf))
+        with open(fn, "rb") as fh:
+            fh.seek(off)
+            blob = fh.read(size)
+        h = struct.unpack(">24I", blob[:96])
+        assert h[0] == 0x4445534D, "frame magic"
+        size_header, endian, nlabels = h[4], h[12], h[13]
+        s_meta, s_type, s_label, s_scalar, s_field = h[14], h[15], h[16], h[17], (h[19] << 32) | h[18]
+        bo = "<" if endian == 1234 else ">"
+        o_meta = size_header
+        o_type = o_meta + s_meta
+        o_label = o_type + s_type
+        o_scalar = o_label + s_label
+        o_field = o_scalar + s_scalar
+        types = blob[o_type:o_type + s_type].split(b"\0")
+        labels = blob[o_label:o_label + s_label].split(b"\0")
+        ps, pf = o_scalar, o_field
+        items = {}
+        for k in range(nlabels):
+            ty, es, clo, chi = struct.unpack(">4I", blob[o_meta + 16 * k:o_meta + 16 * (k + 1)])
+            count = (chi << 32) | clo
+            nb = es * count
+            pad = (nb + 7) // 8 * 8
+            if count <= 1:
+                data, ps = blob[ps:ps + nb], ps + pad
+            else:
+                data, pf = blob[pf:pf + nb], pf + pad
+            tname = types[ty].decode()
+            lab = labels[k].decode()
+            if tname == "float":
+                items[lab] = {"w": 32, "b": list(struct.unpack(bo + "%dI" % count, data))}
+            elif tname == "double":
+                items[lab] = {"w": 64, "b": list(struct.unpack(bo + "%dQ" % count, data))}
+            elif tname == "char":
+                items[lab] = {"s": data.split(b"\0")[0].decode("latin-1")}
+            else:
+                items[lab] = {"type": tname, "count": count}
+        frames.append({"key_time": (thi << 32) | tlo, "items": items, "frame_size": size})
+    return {"frames_per_file": fpf, "frames": frames}
+
+
 # ----------------------------------------------------------------------------- mdtraj's own low-level readers
 def native_read(path, ext, n_atoms):
     """Numbers in the file's native units as mdtraj's file object returns them."""
@@ -318,6 +378,8 @@ def run_save(t, tj, sv, d):
             raw = raw_trr(path)
         elif ext == ".dcd":
             raw = raw_dcd(path)
+        elif ext == ".dtr":
+            raw = raw_dtr(path)
     except Exception as e:  # noqa: BLE001
         raw = {"err": err(e)}
     res["raw"] = raw
